@@ -163,3 +163,19 @@ package http
 //@   setat "p.sourceIDs = append(p.sourceIDs, x)" len0 := len(p.sourceIDs)
 //@   assert at "p.mu.Unlock()" p.sourceSeq == seq0 && len(p.sourceIDs) == len0 + 1 && p.sourceIDs[len0] == x
 //@   assume at "p.sourceIDs = append(p.sourceIDs, x)" 0 <= x && x < p.sourceSeq && (forall k :: 0 <= k && k < len(p.sourceIDs) ==> p.sourceIDs[k] != x)
+
+// newMetaInformation runs before the body is read (ServeHTTP renders the meta templates
+// first): it must not touch the body.  The net/http helpers that parse form data read
+// and consume r.Body for form-encoded POSTs - guard clauses: they must not be called.
+
+//@ func newMetaInformation
+//@   callee ParseForm() (e)
+//@     requires false
+//@   callee ParseMultipartForm(n) (e)
+//@     requires false
+//@   callee FormValue(k) (v)
+//@     requires false
+//@   callee PostFormValue(k) (v)
+//@     requires false
+//@   callee Query() (v)
+//@     pure
